@@ -5,6 +5,20 @@ GO_TRUST = ["Go toolchain/runtime semantics as exercised by the harness"]
 NETC = "pkg/netceptor"
 
 PROPS = {
+    "C01": dict(
+        lean_props="Receptor.Props.C01",
+        engines=[dict(engine="route", pkg=NETC, test="TestVerifRoute", n_quick=500, n_thorough=5000),
+                 dict(engine="flood", pkg=NETC, test="TestVerifFlood", n_quick=300, n_thorough=3000),
+                 dict(engine="aging", pkg=NETC, test="TestVerifAging", n_quick=100, n_thorough=1000)],
+        corr_ops={"route": ["table"], "flood": ["run"], "aging": ["reader"]},
+        facts=["rt_relax", "rt_improve", "rt_init", "rt_walk", "rt_costs_published", "route_stale_epoch", "route_stale_seq",
+               "aging_stamp_after_timeout_continue", "aging_cancel_test"],
+        trusted=["float64 arithmetic on costs (model uses naturals; generators use small integer costs)",
+                 "github.com/jupp0r/go-priority-queue (pop order is irrelevant: the theorem holds for every order)",
+                 "real-time bound 'within K update periods' is measured by the mesh engine, not proved",
+                 "termination of the label-correcting loop is not proved (lc_terminates): the driver's model runs under a pop budget"],
+        assumptions=["positive link costs"],
+    ),
     "C02": dict(
         lean_props="Receptor.Props.C02",
         engines=[dict(engine="wire", pkg=NETC, test="TestVerifWire", n_quick=300, n_thorough=3000),
